@@ -151,6 +151,20 @@ func bodySchema(f string) M {
 		props["ro"] = M{"type": "string", "readOnly": true, "default": "dro"}
 		props["wo"] = M{"type": "string", "writeOnly": true, "default": "dwo"}
 	}
+	if strings.Contains(f, "g") {
+		// the same one level further down: rows of cells; the first alternative does not match the rows sent
+		cell := func(req string, props M) M {
+			c := M{"type": "object", "additionalProperties": false, "properties": props}
+			if req != "" {
+				c["required"] = []any{req}
+			}
+			return M{"type": "array", "items": M{"type": "array", "items": c}}
+		}
+		props["rows"] = M{"oneOf": []any{
+			cell("t", M{"t": M{"type": "string", "enum": []any{"x"}}, "w": M{"type": "integer", "default": 1.0}}),
+			cell("", M{"name": M{"type": "string"}}),
+		}}
+	}
 	if strings.Contains(f, "u") {
 		// a list of distinct items whose item schema has a default
 		props["uq"] = M{"type": "array", "uniqueItems": true, "items": M{"type": "object", "properties": M{"k": M{"type": "integer"}, "d": M{"type": "integer", "default": 2.0}}}}
@@ -708,7 +722,7 @@ func gen(t *rapid.T) Case {
 	c.HasBody = rapid.IntRange(0, 4).Draw(t, "hasbody") > 0
 	if c.HasBody {
 		feats := ""
-		for _, f := range "pnoarxydwztu" {
+		for _, f := range "pnoarxydwztug" {
 			if rapid.IntRange(0, 2).Draw(t, "feat:"+string(f)) == 0 {
 				feats += string(f)
 			}
@@ -742,6 +756,9 @@ func gen(t *rapid.T) Case {
 				// open finding: items that are distinct as sent and equal once the default is added
 				body["uq"] = []any{M{"k": 1.0}, M{"k": 1.0, "d": 2.0}}
 			}
+		}
+		if strings.Contains(feats, "g") && has("bg") {
+			body["rows"] = []any{[]any{M{"name": "n1"}, M{}}, []any{M{}}}
 		}
 		if strings.Contains(feats, "z") && has("bz") {
 			body["alts"] = []any{M{"name": "n1"}, M{}}
